@@ -3,6 +3,10 @@ import MobiusModel.Generated.Handlers
 import MobiusModel.Generated.AccessGuards
 import MobiusModel.Generated.Consts
 import MobiusModel.Spec.Tables
+import MobiusModel.TranslatedTies
+import MobiusModel.ChatGate
+import MobiusModel.LoginName
+import MobiusModel.Generated.PrivGates
 /-!
   C05 — Every privileged effect requires the governing privilege.
 
@@ -209,5 +213,90 @@ theorem place_checks_use_the_resolved_folder : Generated.placeChecks = [
     ("resolvedName", "{ var subPath string for _, pathItem := range fp.Items { subPath = filepath.Join(\"/\", subPath, string(pathItem.Name)) } if subPath == \"\" || subPath == \"/\" { return \"\" } return filepath.Base(subPath) }"),
     ("ReadPath.loop", "for _, pathItem := range fp.Items { subPath = filepath.Join(\"/\", subPath, string(pathItem.Name)) }")] := by
   decide +kernel
+
+/-! Tie by translation (docs/Translator.md): the `isSet` that `Authorize` is modelled with IS
+    `(*AccessBitmap).IsSet` of /repo's current hotline/access.go, translated to Lean on every check
+    (`Generated/Translated.lean`) — for every bitmap and every privilege position `0 ≤ i < 64`. -/
+theorem translated_IsSet_is_the_model (b : AccessBitmap) (i : Nat) (hi : i < 64) :
+    Generated.Translated.AccessBitmap_IsSet b.bytes (i : Int) = .ok (b.isSet i) :=
+  TranslatedTies.IsSet_translated b i hi
+
+-- non-vacuity
+example : Generated.Translated.AccessBitmap_IsSet (AccessBitmap.ofBits [2, 22]).bytes 2 = .ok true := by decide
+
+/-! ## Wave d — privileged effects decided outside the per-handler guard
+
+    (a) *A private chat exists* is an effect of bit 11 ('open chat'): the handlers that act on a chat id (join, leave,
+    subject, private send, decline) have no guard of their own because they can only reach a chat that was opened.
+    (b) *The name a session shows* is client-chosen only under bit 26 ('use any name') — at the login transaction
+    itself (`handleNewConnection`), at `TranAgreed` and at `TranSetClientUserInfo`. -/
+
+/-- For EVERY history of chat requests from the empty manager: every private chat that exists was created by an
+    invite-new request whose sender held 'open chat'. -/
+theorem chat_exists_only_by_open_chat (ops : List ChatGate.Op) (i : Nat)
+    (hi : i ∈ (ChatGate.run ChatGate.St.init ops).ids) : ∃ who, ChatGate.Op.inviteNew who true i ∈ ops := by
+  rcases ChatGate.run_ids ops ChatGate.St.init i hi with h | h
+  · cases h
+  · exact h
+
+/-- A request naming a chat id that was never issued (join / leave / subject / private send / decline, whoever sends
+    it): the state is unchanged and nobody is reached (the Go handler dereferences a nil `*PrivateChat`; the panic is
+    recovered in the requester's connection goroutine). -/
+theorem chat_request_on_unissued_id_is_inert (s : ChatGate.St) (who cid : Nat) (subj : Bytes) (sd : Bool)
+    (h : cid ∉ s.ids) (o : ChatGate.Op)
+    (ho : o = .join who cid ∨ o = .leave who cid ∨ o = .setSubject who cid subj ∨ o = .send who sd cid ∨ o = .decline who cid) :
+    (ChatGate.step s o).1 = s ∧ ((ChatGate.step s o).2 = .panicked ∨ (ChatGate.step s o).2 = .denied) :=
+  ChatGate.step_unknown s o cid h ho
+
+/-- Without 'open chat' an invite-new request is refused and no chat comes into being. -/
+theorem invite_new_needs_open_chat (s : ChatGate.St) (who newId : Nat) :
+    ChatGate.step s (.inviteNew who false newId) = (s, .denied) := rfl
+
+-- non-vacuity: with the privilege the chat exists and an unprivileged user can join it and reach the opener
+example : (ChatGate.run ChatGate.St.init [.inviteNew 1 true 77, .join 2 77]).ids = [77] ∧
+    (ChatGate.step (ChatGate.run ChatGate.St.init [.inviteNew 1 true 77]) (.join 2 77)).2 = .ok [1] ∧
+    (ChatGate.step (ChatGate.run ChatGate.St.init [.inviteNew 1 true 77]) (.join 2 78)).2 = .panicked := by decide
+
+/-- For EVERY account name, every login form and every sequence of agreed / set-client-user-info requests: without
+    'use any name' the session shows the account's configured name (or no name yet) — never a name of the client's
+    choosing. -/
+theorem session_name_without_any_name (acctName : Bytes) (login : Option Bytes) (evs : List LoginName.NameEv) :
+    LoginName.session acctName false login evs = [] ∨ LoginName.session acctName false login evs = acctName := by
+  apply LoginName.foldl_without
+  cases login <;> simp [LoginName.atLogin]
+
+/-- With the privilege the client's name is adopted at each of the three places (never refused). -/
+theorem session_name_with_any_name (acctName n : Bytes) (login : Option Bytes) (evs : List LoginName.NameEv) :
+    LoginName.atLogin acctName true (some n) = n ∧
+    LoginName.session acctName true login (evs ++ [.agreed (some n)]) = n ∧
+    LoginName.session acctName true login (evs ++ [.setInfo (some n)]) = n := by
+  simp [LoginName.atLogin, LoginName.session, LoginName.stepName, List.foldl_append]
+
+/-- The login is announced at once exactly when the name it ends up with is non-empty; in particular an account with
+    an empty configured name and without the privilege is NOT announced under the client's name. -/
+theorem login_without_any_name_announces_account_name (acctName n : Bytes) :
+    LoginName.atLogin acctName false (some n) = acctName ∧
+    LoginName.announcedAtLogin [] false (some n) = false := by
+  simp [LoginName.atLogin, LoginName.announcedAtLogin]
+
+-- non-vacuity
+example : LoginName.session [65] false (some [88]) [.setInfo (some [89]), .agreed (some [90])] = [65] ∧
+    LoginName.session [] false (some [88]) [.setInfo (some [89])] = [] ∧
+    LoginName.session [65] true (some [88]) [.setInfo (some [89])] = [89] := by decide
+
+/-- Regenerated: a private chat is stored into the manager's map only by `New`, which only `HandleInviteNewChat`
+    calls, behind its guard on 'open chat' — the premise of `ChatGate.step` (no other request inserts). -/
+theorem chat_comes_into_being_only_in_New :
+    Generated.chatMapWrites = [("MemChatManager.New", "cm.chats[randID] = &PrivateChat{ClientConn: make(map[[2]byte]*ClientConn)}")] ∧
+    Generated.chatNewCallers = [("HandleInviteNewChat", "!cc.Authorize(hotline.AccessOpenChat)")] := by decide
+
+/-- Regenerated: every assignment to a session's `UserName` in the source, with the if-arms it sits in — the three
+    places of `LoginName`, each adopting the client's field only under `Authorize(AccessAnyName)`. -/
+theorem name_is_assigned_only_under_any_name : Generated.nameWrites = [
+    ("Server.handleNewConnection", "clientLogin.GetField(FieldUserName).Data != nil && c.Authorize(AccessAnyName)", "clientLogin.GetField(FieldUserName).Data"),
+    ("Server.handleNewConnection", "clientLogin.GetField(FieldUserName).Data != nil && !(c.Authorize(AccessAnyName))", "[]byte(c.Account.Name)"),
+    ("HandleTranAgreed", "t.GetField(hotline.FieldUserName).Data != nil && cc.Authorize(hotline.AccessAnyName)", "t.GetField(hotline.FieldUserName).Data"),
+    ("HandleTranAgreed", "t.GetField(hotline.FieldUserName).Data != nil && !(cc.Authorize(hotline.AccessAnyName))", "[]byte(cc.Account.Name)"),
+    ("HandleSetClientUserInfo", "cc.Authorize(hotline.AccessAnyName)", "t.GetField(hotline.FieldUserName).Data")] := by decide
 
 end Mobius.C05
